@@ -70,6 +70,17 @@ func H_C15_args_index() {
 	vResetDecOpts()
 	m := Map(vNondetMap(vSpec{Depth: 3, Width: 1, Kinds: "mls", KeyAlpha: "a", KeyMin: 1, KeyMax: 1, StrAlpha: "x", StrMax: 0}))
 	arg := "a[" + vNondetString(0, 3, "-09]") + "]" + []string{"", ".a", "[0]", ".a[-0]"}[vChoose(4)]
+	if vChoose(4) == 0 {
+		// indexes around the length of a list that is as long as the initial result capacity
+		n := 31 + vChoose(3)
+		l := make([]interface{}, n)
+		for i := range l {
+			l[i] = "v"
+		}
+		m = Map{"a": l}
+		arg = "a[" + m_strconv_Itoa(n-1+vChoose(3)) + "]"
+		vCover("capacity")
+	}
 	which := vChoose(4)
 	panicked := vCatch(func() {
 		switch which {
